@@ -893,6 +893,8 @@ def run(ctx: Any, prog: Program) -> None:
 
 
 MUTANTS = [
+    {'id': 'ok_prop_flags_split_into_locals', 'file': 'bsp.py', 'find': "            start = prop_lump.tell()\n", 'replace': "            start = prop_lump.tell()\n            flags_prim = prop.flags.value_prim\n            flags_sec = prop.flags.value_sec\n", 'extra': [{'file': 'bsp.py', 'find': "                0 if version.is_lightmap else prop.flags.value_prim,", 'replace': "                0 if version.is_lightmap else flags_prim,"}, {'file': 'bsp.py', 'find': "                prop_lump.write(struct.pack('<I', prop.flags.value_sec))", 'replace': "                prop_lump.write(struct.pack('<I', flags_sec))"}], 'expect': None, 'note': 'negative control: the two flag halves taken into locals'},
+    {'id': 'lightmap_flags_primary_local', 'file': 'bsp.py', 'find': "            start = prop_lump.tell()\n", 'replace': "            start = prop_lump.tell()\n            flags_prim = prop.flags.value_prim\n", 'extra': [{'file': 'bsp.py', 'find': "                    '<IHH',\n                    prop.flags.value,\n", 'replace': "                    '<IHH',\n                    flags_prim,\n"}], 'expect': 'C11.L10'},
     {'id': 'find_or_insert_numbers_by_key_map', 'file': 'binformat.py', 'find': "            ind = by_index[key] = len(item_list)\n", 'replace': "            ind = by_index[key] = len(by_index)\n", 'expect': 'C11.L25'},
     {'id': 'surfedge_reader_copies_vertexes', 'file': 'bsp.py', 'find': "            Edge(verts[a], verts[b])\n", 'replace': "            Edge(verts[a].copy(), verts[b].copy())\n", 'expect': 'C11.L23'},
     {'id': 'brushside_flags_joined_with_or', 'file': 'bsp.py', 'find': "                    side.is_bevel_plane | side._unknown_bevel_bits,", 'replace': "                    side.is_bevel_plane or side._unknown_bevel_bits,", 'expect': 'C11.L24'},
